@@ -1,6 +1,7 @@
 import BqVerif.Proofs.Partition
 import BqVerif.Proofs.QuickSpec
 import BqVerif.Proofs.PartitionBins
+import BqVerif.Proofs.Region
 /-!
 # C08 — partitioning regroups operations without changing the program
 
@@ -299,5 +300,118 @@ def multisetSemantics : Semantics (Multiplicative (Multiset Op)) [] :=
 example : ∀ (M : Type) [Monoid M] (S : Semantics M Example.blocks),
     den S Example.p.ops = den S Example.c.ops :=
   (C08_validator_sound Example.blocks [9] true Example.c Example.p 2 (by decide +kernel)).1
+
+/-! ## The region algebra (`bqskit/ir/interval.py`, `bqskit/ir/region.py`)
+
+`CycleInterval` and `CircuitRegion` are what the partitioners cut circuits with
+(`GreedyPartitioner`: `overlaps`, `in`, `==`, and `depends_on` for its topological sort;
+`Circuit.check_region / straighten / fold` : interval `overlaps`, `shift_left/right`,
+`min_cycle`, `max_min_cycle`; the region iterator: `overlaps(point)`).  `Model/Region.lean`
+transcribes the methods (same early exits, same error classes); the theorems say that each
+method computes the set-theoretic notion on the region's CELLS `(cycle, qudit)`
+(`hasPt r c q`, which is membership in `region.points`), for all regions of any size.
+`wf r` = what the constructors enforce: distinct qudits, `lower <= upper`.
+The tie is `harness/c08_region.py` (real classes vs `bqdriver region` vs a set-of-cells oracle). -/
+end BqVerif.Props.C08
+
+namespace BqVerif.Props.C08
+section RegionAlgebra
+open BqVerif.Region
+
+/-- `region.points` lists exactly the cells of the region. -/
+theorem C08_region_points (r : BqVerif.Region.Region) (hw : r.wf = true) (c q : Nat) :
+    (c, q) ∈ r.points ↔ r.hasPt c q = true := BqVerif.Region.Region.mem_points r hw c q
+
+/-- **Intervals.** `overlaps` ⇔ a common cycle; `intersection` succeeds exactly then and is the set
+    intersection; `union` succeeds exactly when the intervals overlap or touch and is then the set
+    union - and when it raises, some cycle between them belongs to neither (the union is not an
+    interval); `<` means "entirely before", is a strict partial order, and two intervals either
+    overlap or are ordered. -/
+theorem C08_region_interval (a b : Iv) (ha : a.valid = true) (hb : b.valid = true) :
+    (a.overlaps b = true ↔ ∃ c, a.mem c = true ∧ b.mem c = true)
+    ∧ (a.overlaps b = true → ∃ i, a.inter b = .ok i ∧ i.valid = true
+          ∧ ∀ c, i.mem c = true ↔ (a.mem c = true ∧ b.mem c = true))
+    ∧ (a.overlaps b = false → a.inter b = .error .value)
+    ∧ ((∃ u, a.union b = .ok u) ↔ (a.overlaps b = true ∨ a.hi + 1 = b.lo ∨ b.hi + 1 = a.lo))
+    ∧ (∀ u, a.union b = .ok u → u.valid = true ∧ ∀ c, u.mem c = true ↔ (a.mem c = true ∨ b.mem c = true))
+    ∧ (a.union b = .error .value →
+          ∃ c, min a.lo b.lo ≤ c ∧ c ≤ max a.hi b.hi ∧ a.mem c = false ∧ b.mem c = false)
+    ∧ (a.lt b = true ↔ ∀ c d, a.mem c = true → b.mem d = true → c < d)
+    ∧ a.lt a = false ∧ (a.lt b = true → b.lt a = false)
+    ∧ (∀ c : Iv, a.lt b = true → b.lt c = true → a.lt c = true)
+    ∧ ((a.overlaps b = true ∧ a.lt b = false ∧ b.lt a = false)
+        ∨ (a.overlaps b = false ∧ (a.lt b = true ∨ b.lt a = true)))
+    ∧ a.indices.length = a.len ∧ (∀ c, c ∈ a.indices ↔ a.mem c = true) :=
+  ⟨Iv.overlaps_iff a b ha hb, Iv.inter_ok a b ha hb, Iv.inter_err a b, Iv.union_ok_iff a b,
+   fun u h => Iv.union_ok a b u ha hb h, Iv.union_err a b ha hb, Iv.lt_iff a b ha hb,
+   Iv.lt_irrefl a ha, Iv.lt_asymm a b ha hb, fun c h1 h2 => Iv.lt_trans a b c hb h1 h2,
+   Iv.overlaps_or_lt a b, Iv.length_indices a ha, Iv.mem_indices a⟩
+
+/-- **`r.overlaps(s)`** - with its early exits on the bounding cycles - is true exactly when the
+    two regions share a cell; it is symmetric. -/
+theorem C08_region_overlaps (r s : BqVerif.Region.Region) (hr : r.wf = true) (hs : s.wf = true) :
+    (r.overlaps s = true ↔ ∃ c q, r.hasPt c q = true ∧ s.hasPt c q = true)
+    ∧ r.overlaps s = s.overlaps r :=
+  ⟨BqVerif.Region.Region.overlaps_iff r s hr hs, BqVerif.Region.Region.overlaps_symm r s hr hs⟩
+
+/-- **`s in r`** is inclusion of the cell sets. -/
+theorem C08_region_contains (r s : BqVerif.Region.Region) (hr : r.wf = true) (hs : s.wf = true) :
+    r.contains s = true ↔ ∀ c q, s.hasPt c q = true → r.hasPt c q = true :=
+  BqVerif.Region.Region.contains_iff r s hr hs
+
+/-- **`r.intersection(s)`** is a well-formed region whose cells are the common cells. -/
+theorem C08_region_intersection (r s : BqVerif.Region.Region) (hr : r.wf = true) (hs : s.wf = true) :
+    (r.inter s).wf = true
+    ∧ ∀ c q, (r.inter s).hasPt c q = true ↔ (r.hasPt c q = true ∧ s.hasPt c q = true) :=
+  BqVerif.Region.Region.inter_spec r s hr hs
+
+/-- **`r.depends_on(s)`** (the edge relation of `GreedyPartitioner.topo_sort`): the regions share
+    a qudit and on every shared qudit all of `s` lies before all of `r`.  The relation is
+    asymmetric - two regions never depend on each other, so a 2-cycle cannot make the topological
+    sort fail - and dependent regions are disjoint. -/
+theorem C08_region_depends_on (r s : BqVerif.Region.Region) (hr : r.wf = true) (hs : s.wf = true) :
+    (r.dependsOn s = true ↔
+      (∃ q, q ∈ r.keys ∧ q ∈ s.keys) ∧
+      ∀ q a b, r.get q = some a → s.get q = some b →
+        ∀ c d, b.mem c = true → a.mem d = true → c < d)
+    ∧ (r.dependsOn s = true → s.dependsOn r = false)
+    ∧ (r.dependsOn s = true → r.overlaps s = false) :=
+  ⟨BqVerif.Region.Region.dependsOn_iff r s hr hs, BqVerif.Region.Region.dependsOn_asymm r s hr hs,
+   BqVerif.Region.Region.dependsOn_disjoint r s hr hs⟩
+
+/-- **Shifts** (`straighten` moves the region right by its shadow length and left by the idle
+    cycles it removes): `shift_right(k)` moves every cell `k` cycles right; `shift_left(k)` raises
+    exactly when a non-empty region has a cell before cycle `k`, and otherwise moves every cell
+    `k` cycles left. -/
+theorem C08_region_shift (r : BqVerif.Region.Region) (hr : r.wf = true) (k : Nat) :
+    (∀ c q, (r.shiftRight k).hasPt c q = true ↔ k ≤ c ∧ r.hasPt (c - k) q = true)
+    ∧ (r.shiftLeft k = .error .value ↔ (r ≠ [] ∧ ∃ q a, r.get q = some a ∧ a.lo < k))
+    ∧ ∀ r', r.shiftLeft k = .ok r' → ∀ c q, r'.hasPt c q = true ↔ r.hasPt (c + k) q = true :=
+  ⟨BqVerif.Region.Region.shiftRight_spec r k, (BqVerif.Region.Region.shiftLeft_spec r hr k).1,
+   (BqVerif.Region.Region.shiftLeft_spec r hr k).2⟩
+
+/-- **Bounds**: `min_cycle` / `max_cycle` raise on the empty region and otherwise are the least /
+    greatest cycle of any cell, attained by a cell. -/
+theorem C08_region_bounds (r : BqVerif.Region.Region) (hr : r.wf = true) :
+    (r = [] → r.minCycle = .error .value ∧ r.maxCycle = .error .value)
+    ∧ (r ≠ [] → ∃ lo hi, r.minCycle = .ok lo ∧ r.maxCycle = .ok hi
+        ∧ (∃ q, r.hasPt lo q = true) ∧ (∃ q, r.hasPt hi q = true)
+        ∧ ∀ c q, r.hasPt c q = true → lo ≤ c ∧ c ≤ hi) := by
+  have h1 := BqVerif.Region.Region.minCycle_spec r hr
+  have h2 := BqVerif.Region.Region.maxCycle_spec r hr
+  refine ⟨fun h => ⟨h1.1 h, h2.1 h⟩, fun h => ?_⟩
+  obtain ⟨lo, e1, p1, b1⟩ := h1.2 h
+  obtain ⟨hi, e2, p2, b2⟩ := h2.2 h
+  exact ⟨lo, hi, e1, e2, p1, p2, fun c q hc => ⟨b1 c q hc, b2 c q hc⟩⟩
+
+/-- non-vacuity: two blocks of a 3-qudit circuit, the second after the first on qudit 1 -/
+example :
+    let r : BqVerif.Region.Region := [(1, ⟨2, 3⟩), (2, ⟨0, 3⟩)]
+    let s : BqVerif.Region.Region := [(0, ⟨0, 1⟩), (1, ⟨0, 1⟩)]
+    r.wf = true ∧ s.wf = true ∧ r.dependsOn s = true ∧ s.dependsOn r = false
+    ∧ r.overlaps s = false ∧ r.union s = .ok [(0, ⟨0, 1⟩), (1, ⟨0, 3⟩), (2, ⟨0, 3⟩)]
+    ∧ r.shiftLeft 1 = .error .value ∧ r.minCycle = .ok 0 ∧ r.maxMinCycle = .ok 2 := by decide
+
+end RegionAlgebra
 
 end BqVerif.Props.C08
